@@ -291,4 +291,5 @@ theorem init_win (cfg : Cfg) (tsn peerRwnd : BitVec 32) (hc : CfgOk cfg) : WinIn
     repeat' split
     all_goals (simp only [BitVec.lt_def, gt_iff_lt, decide_eq_true_eq, Nat.not_lt, e4, e2] at *; try omega)
 
+
 end SenderProofs
